@@ -117,6 +117,8 @@ class Driver:
         self.events, self.desc = [], []
         self.fake = 0
         self.gentle = False         # only requests for one key at a time, position given by arguments
+        self.ooo = False            # many requests by explicit position, out of index order
+        self.default_acct = cfg['acct']     # the account requests without account number refer to
         self.exported = False       # public_master() was called on the current wallet object
         self.ever_exported = False
 
@@ -133,14 +135,15 @@ class Driver:
     def call(self, a, variant):
         """Perform request a through one of the public spellings; returns (ok, keys handed out, text)."""
         w, cfg = self.w, self.cfg
-        own_net, own_wt, own_acct = a['net'] == cfg['net'], a['wt'] == cfg['wt'], a['acct'] == cfg['acct']
+        own_net, own_wt, own_acct = a['net'] == cfg['net'], a['wt'] == cfg['wt'], a['acct'] == self.default_acct
         kw = {}
-        # arguments that equal the wallet's defaults are sometimes left out
-        if not own_net or variant % 2:
+        # arguments that equal the wallet's defaults are sometimes left out (explicit: never)
+        ex = bool(a.get('explicit'))
+        if not own_net or variant % 2 or ex:
             kw['network'] = a['net']
-        if not own_wt or variant % 3 == 0:
+        if not own_wt or variant % 3 == 0 or ex:
             kw['witness_type'] = a['wt']
-        if not own_acct or not own_net or variant % 5 < 2:
+        if not own_acct or not own_net or variant % 5 < 2 or ex:
             kw['account_id'] = a['acct']
         op, n, ch, idx = a['op'], a['n'], a['ch'], a['idx']
         try:
@@ -191,9 +194,15 @@ class Driver:
                 text = 'public_master(%s)' % kw2
                 pm = w.public_master(**kw2)
                 self.exported = self.ever_exported = True
-                r = []
                 if not pm.wif or pm.is_private:
                     return False, [], text + ' returned no public key'
+                self.last_export = (int(pm.key_id), pm.wif)
+                r = [pm]
+            elif op == 'set_default':
+                text = 'default_account_id = %d' % a['acct']
+                w.default_account_id = a['acct']
+                self.default_acct = a['acct']
+                r = []
             elif op == 'reopen':
                 from bitcoinlib.wallets import Wallet
                 try:
@@ -229,7 +238,7 @@ class Driver:
         leafs = self.chains_known()
         accts = sorted({(k[0], k[1], k[2]) for k in leafs})
         r = rng.random()
-        own = (cfg['net'], cfg['wt'], cfg['acct'])
+        own = (cfg['net'], cfg['wt'], cfg['acct'] if watch else self.default_acct)
 
         def req(op, net, wt, acct, ch=0, n=1, idx=0):
             return {'op': op, 'net': net, 'wt': wt, 'acct': acct, 'ch': ch, 'n': n, 'idx': idx,
@@ -237,6 +246,9 @@ class Driver:
 
         def some_chain():
             x = rng.random()
+            if not watch and self.default_acct != 0 and rng.random() < 0.3:
+                # account 0 asked for by number in a wallet whose default account is another one
+                return cfg['net'], rng.choice([cfg['wt'], cfg['wt'], rng.choice(dict(NETS)[cfg['net']])]), 0, rng.choice([0, 0, 1])
             if watch or x < 0.45 or not accts:
                 net, wt, acct = own
             elif x < 0.8:
@@ -252,6 +264,17 @@ class Driver:
         def top(net, wt, acct, ch):
             ix = [k[4] for k in leafs if k[:4] == [net, wt, acct, ch]]
             return max(ix) if ix else -1
+        if self.ooo and rng.random() < 0.45:
+            # a key by explicit position, in no particular order: holes, descending, behind the end
+            net, wt, acct, ch = some_chain()
+            have = {k[4] for k in leafs if k[:4] == [net, wt, acct, ch]}
+            free = [i for i in range(0, max(have | {0}) + 5) if i not in have]
+            return req('key_for_path', net, wt, acct, ch, rng.choice([1, 1, 1, 2]), rng.choice(free))
+        if not watch and rng.random() < 0.03:
+            mine = [a_ for a_ in accts if a_[0] == cfg['net']]
+            if mine:
+                a_ = rng.choice(mine)
+                return req('set_default', a_[0], a_[1], a_[2])
         if r < 0.26:
             net, wt, acct, ch = some_chain()
             return req('new_keys', net, wt, acct, ch, rng.choice([1, 1, 1, 2, 3, 5]))
@@ -269,7 +292,7 @@ class Driver:
         if r < 0.82:
             return req('reopen', cfg['net'], cfg['wt'], cfg['acct'])
         if r < 0.86:
-            net, wt, acct = own if (watch or not accts or rng.random() < 0.5) else rng.choice(accts)
+            net, wt, acct = own if (watch or not accts or rng.random() < 0.4) else rng.choice(accts + [(cfg['net'], cfg['wt'], 0)])
             return req('export', net, wt, acct)
         if r < 0.96 and not watch:
             x = rng.random()
@@ -280,7 +303,7 @@ class Driver:
             else:                                        # an account in another network (distinct coin type or not)
                 net = rng.choice([n for n, _ in NETS])
                 wt = rng.choice(dict(NETS)[net])
-            return req('new_account', net, wt, rng.choice([-1, -1, -1, 1, 2, 5]))
+            return req('new_account', net, wt, rng.choice([-1, -1, -1, 0, 1, 2, 5]))
         # requests the wallet cannot serve: a watch-only wallet outside its account, a network sharing a coin type
         if watch:
             x = rng.random()
@@ -313,6 +336,9 @@ def _pick_ms(self):
     ch = rng.choice([0, 0, 1])
     ix = [k[4] for k in leafs if k[3] == ch]
     t = max(ix) if ix else -1
+    if self.ooo and rng.random() < 0.4:
+        free = [i for i in range(0, t + 5) if i not in ix]
+        return req('key_for_path', ch, 1, rng.choice(free))
     if r < 0.3:
         return req('new_keys', ch, rng.choice([1, 1, 2, 3]))
     if r < 0.5:
@@ -416,7 +442,7 @@ def _family(job, d):
     def uri(n):
         return 'sqlite:///' + os.path.join(d, n + '.sqlite')
     kind = ['mnemonic', 'seed', 'xprv'][seedn % 3]
-    acct = rng.choice([0, 0, 0, 2])
+    acct = rng.choice([0, 0, 0, 1, 2, 3])
     material = {'words': '', 'pass': '', 'seed': ''}
     if kind == 'mnemonic':
         ent = bytes(rng.getrandbits(8) for _ in range(rng.choice([16, 20, 32])))
@@ -436,6 +462,7 @@ def _family(job, d):
     cfg = {'net': net, 'wt': wt, 'acct': acct, 'ms': False, 'cos': 0, 'watch': False}
     drv = Driver(w, name, uri(name), cfg, rng)
     drv.gentle = bool(job.get('gentle'))
+    drv.ooo = bool(job.get('ooo'))
     for i in range(nops):
         drv.step(drv.pick(False), rng.randrange(0, 420))
     w = drv.w
@@ -449,15 +476,18 @@ def _family(job, d):
     wtrace = None
     w3name = None
     try:
-        wx = Wallet(name, db_uri=uri(name))          # a separate object: exporting must not disturb the wallet under test
-        pm = wx.public_master(account_id=aacct, witness_type=awt, network=an)
-        pmid, pmwif = int(pm.key_id), pm.wif
-        wx.session.close()
+        # the account public key is exported by number (a recorded request: it has to be the key of THAT account)
+        drv.last_export = None
+        drv.step({'op': 'export', 'net': an, 'wt': awt, 'acct': aacct, 'ch': 0, 'n': 1, 'idx': 0, 'form': 'args', 'explicit': True}, 0)
+        if not drv.last_export:
+            raise RuntimeError('public_master(account_id=%d, witness_type=%s, network=%s) gave no key' % (aacct, awt, an))
+        pmid, pmwif = drv.last_export
         w3 = Wallet.create(name + 'p', keys=pmwif, network=an, witness_type=awt, db_uri=uri(name + 'p'))
         w3name = name + 'p'
         cfg3 = {'net': an, 'wt': awt, 'acct': _int(w3.main_key.account_id), 'ms': False, 'cos': 0, 'watch': True}
         drv3 = Driver(w3, name + 'p', uri(name + 'p'), cfg3, rng)
         drv3.gentle = bool(job.get('gentle'))
+        drv3.ooo = bool(job.get('ooo'))
         for i in range(max(3, nops // 2)):
             drv3.step(drv3.pick(True), rng.randrange(0, 420))
         # the full wallet derives every position the watch-only wallet created on its own, and the other way round:
@@ -511,7 +541,8 @@ def jobs_for(n, base, nleaf=None):
         # every other wallet on a network whose extended-key versions do not tell the witness types apart asks for one key
         # at a time (so that its history is not cut short by the known deviation of bulk creation)
         gentle = net.startswith('litecoin') and (i // len(combos)) % 2 == 0
-        jobs.append({'seed': base + i, 'net': net, 'wt': wt, 'nops': 6 + (i * 7) % 9, 'nleaf': nleaf, 'gentle': gentle})
+        jobs.append({'seed': base + i, 'net': net, 'wt': wt, 'nops': 6 + (i * 7) % 9, 'nleaf': nleaf, 'gentle': gentle,
+                     'ooo': i % 3 == 1})
     return jobs
 
 
@@ -542,7 +573,7 @@ def run(replay=None):
                       'one wallet holds networks with pairwise distinct coin types only (others must be refused)',
                       'multisig key paths (BIP45/48) are stated in the specification and model; cosigner wallets are driven by C10']
     from concurrent.futures import ThreadPoolExecutor
-    acts = ['NewKeys', 'GetKeys', 'KeyForPath', 'NewAccount', 'MarkUsed']
+    acts = ['NewKeys', 'GetKeys', 'KeyForPath', 'NewAccount', 'MarkUsed', 'Export']
     ex = ThreadPoolExecutor(3)
     mc1 = ex.submit(common.model_check, 'MC_WalletKeys', 'MC_WalletKeys_thorough.cfg' if thorough else 'MC_WalletKeys.cfg',
                     workers=8 if thorough else 4, expect_actions=acts)
@@ -571,7 +602,7 @@ def run(replay=None):
         nms = 60 if thorough else 10
         base = common.seed() % 1000000
         msjobs = [{'seed': base + 5000 + i, 'net': combos[(i * 5 + base) % len(combos)][0], 'wt': combos[(i * 5 + base) % len(combos)][1],
-                   'nops': 5 + i % 6, 'nleaf': None if thorough else 5, 'ms': True, 'gentle': i % 2 == 0} for i in range(nms)]
+                   'nops': 5 + i % 6, 'nleaf': None if thorough else 5, 'ms': True, 'gentle': i % 2 == 0, 'ooo': i % 3 == 1} for i in range(nms)]
     res_all = common.pmap(_dispatch, [('s', j) for j in jobs] + [('m', j) for j in msjobs], procs=10)
     fams = res_all
     lap('drive')
